@@ -326,7 +326,7 @@ Definition st_of_w4 (t : w4) : state :=
 Lemma wcol_of_word w : wcol w (col_of_word w).
 Proof.
   unfold col_of_word. cbn [wcol].
-  repeat split; symmetry; apply b2n_n2b_small;
+  split; [|split; [|split]]; symmetry; apply b2n_n2b_small;
     first [apply byte3_lt | apply byte2_lt | apply byte1_lt | apply byte0_lt].
 Qed.
 Lemma wst_of_w4 t : wst t (st_of_w4 t).
@@ -362,8 +362,8 @@ Qed.
 
 Lemma inv_mix_word_ok w c : wcol w c -> wcol (inv_mix_word w) (InvMixColumn c).
 Proof.
-  destruct c as [a b c d]. cbn [wcol]. intros (-> & -> & -> & ->).
-  unfold inv_mix_word. cbn [InvMixColumn wcol].
+  destruct c as [a b c d]. cbn [wcol]. intros (H3 & H2 & H1 & H0).
+  unfold inv_mix_word. rewrite H3, H2, H1, H0. cbn [InvMixColumn wcol].
   rewrite !byte3_lxor, !byte2_lxor, !byte1_lxor, !byte0_lxor, !b2n_xor.
   rewrite U1_b3, U1_b2, U1_b1, U1_b0, U2_b3, U2_b2, U2_b1, U2_b0, U3_b3, U3_b2, U3_b1, U3_b0, U4_b3, U4_b2, U4_b1, U4_b0.
   repeat split.
@@ -406,8 +406,8 @@ Lemma out4_S_ok ta tb tc td tt a b c d kc :
   byte3 ta = b2n a -> byte2 tb = b2n b -> byte1 tc = b2n c -> byte0 td = b2n d -> wcol tt kc ->
   out4 S_t ta tb tc td tt = bytes_of_col (xor_col (Col (sboxb a) (sboxb b) (sboxb c) (sboxb d)) kc).
 Proof.
-  intros -> -> -> -> Hk. destruct kc as [k3 k2 k1 k0]. cbn [wcol] in Hk. destruct Hk as (K3 & K2 & K1 & K0).
-  unfold out4. cbn [xor_col bytes_of_col]. rewrite !land255_lxor.
+  intros H3 H2 H1 H0 Hk. destruct kc as [k3 k2 k1 k0]. cbn [wcol] in Hk. destruct Hk as (K3 & K2 & K1 & K0).
+  unfold out4. rewrite H3, H2, H1, H0. cbn [xor_col bytes_of_col]. rewrite !land255_lxor.
   change (N.land (N.shiftr tt 24) 255) with (byte3 tt). change (N.land (N.shiftr tt 16) 255) with (byte2 tt).
   change (N.land (N.shiftr tt 8) 255) with (byte1 tt). change (N.land tt 255) with (byte0 tt).
   change (N.land (tget S_t (b2n a)) 255) with (byte0 (tget S_t (b2n a))).
@@ -420,8 +420,8 @@ Lemma out4_Si_ok ta tb tc td tt a b c d kc :
   byte3 ta = b2n a -> byte2 tb = b2n b -> byte1 tc = b2n c -> byte0 td = b2n d -> wcol tt kc ->
   out4 Si_t ta tb tc td tt = bytes_of_col (xor_col (Col (inv_sboxb a) (inv_sboxb b) (inv_sboxb c) (inv_sboxb d)) kc).
 Proof.
-  intros -> -> -> -> Hk. destruct kc as [k3 k2 k1 k0]. cbn [wcol] in Hk. destruct Hk as (K3 & K2 & K1 & K0).
-  unfold out4. cbn [xor_col bytes_of_col]. rewrite !land255_lxor.
+  intros H3 H2 H1 H0 Hk. destruct kc as [k3 k2 k1 k0]. cbn [wcol] in Hk. destruct Hk as (K3 & K2 & K1 & K0).
+  unfold out4. rewrite H3, H2, H1, H0. cbn [xor_col bytes_of_col]. rewrite !land255_lxor.
   change (N.land (N.shiftr tt 24) 255) with (byte3 tt). change (N.land (N.shiftr tt 16) 255) with (byte2 tt).
   change (N.land (N.shiftr tt 8) 255) with (byte1 tt). change (N.land tt 255) with (byte0 tt).
   change (N.land (tget Si_t (b2n a)) 255) with (byte0 (tget Si_t (b2n a))).
